@@ -430,5 +430,5 @@ void vh_run_case(Ctx &ctx)
     judgeModel(ctx, "C06", m, flat, replay + "\n<!-- ===== flattened ===== -->\n" + flatText, labels, points, "flattened" + tagFeatures + " " + shape, jd);
     stat("values_compared", jd.compared);
     stat("imported_subtrees", fs.importedSubtrees);
-    caseInfo("F" + hex64(fnv1a(shape + std::to_string(m.q.size()))), fs.importedSubtrees > 0, shape + " q=" + std::to_string(m.q.size()));
+    caseInfo("F" + hex64(fnv1a(replay)), fs.importedSubtrees > 0, shape + " q=" + std::to_string(m.q.size()));
 }
